@@ -42,6 +42,7 @@ inline NipalsTol nipals_tolerances(const LVec &ev, int npc, int n, double crit, 
   for (int k = 0; k < npc; k++) {
     if (!(k < (int)ev.size()) || !(ev[k] > 0)) { T.kmax = k; break; }
     double r = (k + 1 < (int)ev.size()) ? (double)(ev[k + 1] / ev[k]) : 0.0;
+    if (!(r > 0)) r = 0;  // a numerically zero eigenvalue may come out of the Jacobi sweep as -1e-30
     if (r >= 0.95) { T.kmax = k; break; }
     double dconv = sqrt((double)n * crit) * sqrt(r) / (1 - r);
     double ddefl = tilt + (double)(c / (ev[k] * (1 - r)));
